@@ -107,6 +107,14 @@ Allows `inspect.signature` to read forged signatures from your own objects.
 """
 
 
+class ForwardingTargetNotFound(ValueError, AttributeError):
+    """The attribute named by a ``forwards_to_*`` declaration does not exist.
+
+    A `ValueError`, like every other declaration that cannot be honoured; also
+    an `AttributeError` for the sake of callers written against the exception
+    the failed lookup used to let through."""
+
+
 def set_signature_forger(obj, forger, emulate=None):
     """Attempts to set the given signature forger on the supplied object.
 
@@ -300,7 +308,10 @@ def forwards_to_method(obj, wrapped_name, *args, **kwargs):
         return
     wrapped = self
     for attr in wrapped_name.split('.'):
-        wrapped = getattr(wrapped, attr)
+        try:
+            wrapped = getattr(wrapped, attr)
+        except AttributeError as e:
+            raise ForwardingTargetNotFound(*e.args)
     return forwards(obj, wrapped, *args, **kwargs)
 
 
@@ -355,9 +366,12 @@ def forwards_to_super(obj, cls=None, *args, **kwargs):
         self = None
     if self is None:
         return
-    inner = getattr(
-        super(_get_origin_class(obj, cls), self),
-        obj.__name__)
+    try:
+        inner = getattr(
+            super(_get_origin_class(obj, cls), self),
+            obj.__name__)
+    except AttributeError as e:
+        raise ForwardingTargetNotFound(*e.args)
     return forwards(obj, inner, *args, **kwargs)
 
 
